@@ -72,12 +72,17 @@ impl TenantIndex {
     /// THE canonical result list of a search (unit configindex: TenantIndex::result_list — permitted tenants, groups, data ids in increasing order)
     pub uninterp spec fn result_list(&self, p: ConfigQueryParam) -> Seq<ConfigKey>;
     /// assumed here with the clauses unit configindex proves for the real TenantIndex::query_config_page (total, window) and its
-    /// spec lemmas (lemma_result_list_exact: the list names stored keys only)
+    /// spec lemma lemma_result_exactly_once (the list names stored keys only); the two window clauses are compared textually
+    /// with the proved ones on every run ([[same_block]] tenant_page)
     #[verifier::external_body]
     pub fn query_config_page(&self, param: &ConfigQueryParam) -> (r: (usize, Vec<ConfigKey>))
         // unit configindex proves these clauses under `requires offset + limit <= usize::MAX`; a window whose end overflows is not decided
-        ensures param.offset + param.limit <= usize::MAX ==> r.0 == self.result_list(*param).len(),
-            param.offset + param.limit <= usize::MAX ==> r.1@ == page(self.result_list(*param), param.offset as int, param.limit as int),
+        ensures param.offset + param.limit <= usize::MAX ==> ({
+            // <<abstract:tenant_page
+            &&& r.0 == self.result_list(*param).len()
+            &&& r.1@ == page(self.result_list(*param), param.offset as int, param.limit as int)
+            // >>abstract
+            }),
             forall|i: int| 0 <= i < self.result_list(*param).len() ==> self@.contains(#[trigger] self.result_list(*param)[i]),
     { unimplemented!() }
 }
